@@ -475,7 +475,7 @@ def outcome(st, ev):
 
 SEED_KINDS = {"cold": [], "self-removing registered": [("add", "MID", "S")], "warm": [("run",)],
               "stopped": [("add", "MID", "F"), ("run",)]}
-QUICK_COMBOS = [("loop", "python"), ("loop", "gcc"), ("jmpmid", "python")]
+QUICK_COMBOS = [("loop", "gcc"), ("jmpmid", "python")]
 ALL_COMBOS = [(p, b) for p in PROG_ORDER for b in BACKENDS]
 # phase -> (menu, depth, [(program, backend, jit_maxline, seed kind)])
 PHASES = {
